@@ -223,4 +223,71 @@ theorem build_listing_build (is : List Instruction) : build (build is).listing =
       simp [Prog.empty]
   · rw [build_high _ r (by omega), build_high _ r (by omega)]
 
+/-! ## re-adding a slot-preserving image of a listing -/
+
+theorem upsert_map (f : Instruction → Instruction) (hf : ∀ i, slotOf (f i) = slotOf i)
+    (l : List Instruction) (i : Instruction) : upsert (l.map f) (f i) = (upsert l i).map f := by
+  induction l with
+  | nil => rfl
+  | cons x xs ih =>
+    simp only [List.map_cons, upsert, hf]
+    split <;> simp [ih]
+
+/-- the image of every container -/
+def mapProg (f : Instruction → Instruction) (p : Prog) : Prog := fun r => (p r).map f
+
+theorem add_map (f : Instruction → Instruction) (hf : ∀ i, slotOf (f i) = slotOf i) (p : Prog) (i : Instruction) :
+    (mapProg f p).add (f i) = mapProg f (p.add i) := by
+  funext r
+  simp only [Prog.add, mapProg, hf]
+  split
+  · simp only [addAt]
+    split
+    · simp
+    · exact upsert_map f hf _ _
+  · rfl
+
+theorem foldl_add_map (f : Instruction → Instruction) (hf : ∀ i, slotOf (f i) = slotOf i)
+    (xs : List Instruction) (p : Prog) :
+    (xs.map f).foldl Prog.add (mapProg f p) = mapProg f (xs.foldl Prog.add p) := by
+  induction xs generalizing p with
+  | nil => rfl
+  | cons x xs ih =>
+    simp only [List.map_cons, List.foldl_cons]
+    rw [add_map f hf p x]
+    exact ih (p.add x)
+
+/-- building from a slot-preserving image of a list = the image of the built containers -/
+theorem build_map (f : Instruction → Instruction) (hf : ∀ i, slotOf (f i) = slotOf i) (xs : List Instruction) :
+    build (xs.map f) = mapProg f (build xs) := by
+  have := foldl_add_map f hf xs Prog.empty
+  have he : mapProg f Prog.empty = Prog.empty := by funext r; simp [mapProg, Prog.empty]
+  rw [he] at this
+  exact this
+
+theorem listing_mapProg (f : Instruction → Instruction) (p : Prog) :
+    (mapProg f p).listing = p.listing.map f := by
+  simp [Prog.listing, mapProg]
+
+
+theorem slotOf_canonInstr (i : Instruction) : slotOf (canonInstr i) = slotOf i := by
+  cases i <;> simp [canonInstr, slotOf]
+
+theorem mem_build {is : List Instruction} {x : Instruction} {r : Nat} (h : x ∈ (build is) r) : x ∈ is := by
+  rcases mem_foldl h with h | h
+  · exact h
+  · simp [Prog.empty] at h
+
+/-- a map that fixes every added instruction fixes the built program -/
+theorem mapProg_eq_self (f : Instruction → Instruction) (is : List Instruction) (h : ∀ i ∈ is, f i = i) :
+    mapProg f (build is) = build is := by
+  funext r
+  simp only [mapProg]
+  have : ∀ l : List Instruction, (∀ x ∈ l, f x = x) → l.map f = l := by
+    intro l hl
+    induction l with
+    | nil => rfl
+    | cons x xs ih => simp [hl x (by simp), ih (fun y hy => hl y (by simp [hy]))]
+  exact this _ (fun x hx => h x (mem_build hx))
+
 end QV.C02
